@@ -656,6 +656,7 @@ def run(ctx):
     from pkgcore.ebuild import restricts
     from pkgcore.ebuild.atom import atom
     from pkgcore.ebuild.cpv import Revision
+    from pkgcore.ebuild import cpv as cpv_mod
     from pkgcore.ebuild.conditionals import DepSet
     from pkgcore.test.misc import FakePkg, FakeRepo
     from snakeoil import klass
@@ -823,8 +824,13 @@ def run(ctx):
             use, iuse = USE_IUSE[len(pkgs) % len(USE_IUSE)]
             pkgs.append(mkpkg(cpv, slot, subslot, use, iuse, repo))
     pkgs = pkgs[:42]
+    N_CORE = len(pkgs)
+    # package-like objects WITHOUT a version (what key-only matching hands to restrictions: unversioned CPVs, and atoms used as the
+    # matched object).  Most attributes are missing (AttributeError -> the sentinel path) or None on them.
+    XPKGS = [cpv_mod.UnversionedCPV("a/b"), cpv_mod.CPV("app", "foo"), cpv_mod.CPV("c/d", versioned=False), atom("a/b"), atom("a/b:1[x]"), atom("c/d:0/2")]
+    pkgs = pkgs + XPKGS
     # iuse_effective (the profile's implicit flags included) differs from iuse_stripped for some of them
-    for i, p in enumerate(pkgs):
+    for i, p in enumerate(pkgs[:N_CORE]):
         eff = set(p.iuse_stripped) | ({"x"} if i % 3 == 0 else set()) | ({"y", "z"} if i % 5 == 1 else set())
         EFF[id(p)] = frozenset(eff)
     UNIV = {
@@ -842,6 +848,19 @@ def run(ctx):
         if dom == "pair":
             return {"v": "tuple", "xs": [{"v": "strs", "xs": sorted(x[0])}, {"v": "strs", "xs": sorted(x[1])}]}
         p = x
+        if p.version is None:
+            # only what is a plain string / string collection; None valued attributes are listed in XBAD and restrictions reading them
+            # are not compared with the model on this object (the property itself is still evaluated on it)
+            fields = []
+            for a in ("category", "package", "fullver", "slot", "subslot"):
+                v = getattr(p, a, None)
+                if isinstance(v, str):
+                    fields.append([a, {"v": "str", "s": v}])
+            for a in ("use", "iuse_stripped", "iuse_effective"):
+                v = getattr(p, a, None)
+                if v is not None:
+                    fields.append([a, {"v": "strs", "xs": sorted(v)}])
+            return {"v": "pkg", "fields": fields, "ver": None}
         fields = [["category", {"v": "str", "s": p.category}], ["package", {"v": "str", "s": p.package}], ["fullver", {"v": "str", "s": p.fullver}],
                   ["slot", {"v": "str", "s": p.slot}], ["subslot", {"v": "str", "s": p.subslot}],
                   ["use", {"v": "strs", "xs": sorted(p.use)}], ["iuse_stripped", {"v": "strs", "xs": sorted(p.iuse_stripped)}],
@@ -850,11 +869,46 @@ def run(ctx):
         return {"v": "pkg", "fields": fields, "ver": {"ver": lex_ver(p.version), "rev": p.revision.data}}
 
     UNIV_MODEL = {dom: [val_model(dom, x) for x in xs] for dom, xs in UNIV.items()}
+    _missing = object()
+    XBAD = [{a for a in ("category", "package", "fullver", "slot", "subslot", "use", "iuse_stripped", "iuse_effective", "repo")
+             if getattr(p, a, _missing) is None} for p in XPKGS]
+
+    def attrs_read(m, out):
+        """first components of every attribute path a model restriction pulls from the package"""
+        if isinstance(m, dict):
+            if m.get("c") == "pkg":
+                out.update(a[0] for a in m["attrs"] if a)
+            elif m.get("c") == "cond":
+                out.update(m["attr"][:1])
+            for v in m.values():
+                attrs_read(v, out)
+        elif isinstance(m, list):
+            for v in m:
+                attrs_read(v, out)
+        return out
+
+    def model_diff(dom, real, mod, m):
+        """compare a real match vector with the model's: -> ("raised"|"ok"|"diff", index).  The versioned packages as a block (skipped when
+        a match raised there); every unversioned object on its own, when the restriction reads no None valued attribute of it"""
+        n = N_CORE if dom == "pkg" else len(real)
+        if any(isinstance(x, str) for x in real[:n]):
+            return "raised", None
+        idx = list(range(n))
+        if dom == "pkg":
+            read = attrs_read(m, set())
+            idx += [n + j for j in range(len(XPKGS)) if isinstance(real[n + j], bool) and not (read & XBAD[j])]
+        for i in idx:
+            if real[i] != mod[i]:
+                return "diff", i
+        return "ok", None
 
     def do_match(o, x):
         try:
             if isinstance(o, DepSet):
-                # a DepSet has no match(); its meaning: every member left after USE evaluation matches
+                # a DepSet has no match(); its meaning: every member left after USE evaluation matches (this harness-made reading needs
+                # a configured package: not applied to the unversioned objects)
+                if getattr(x, "version", 0) is None:
+                    return "n/a"
                 return all(bool(r.match(x)) for r in o.evaluate_depset(x.use).restrictions)
             return bool(o.match(x))
         except NotImplementedError:
@@ -863,6 +917,8 @@ def run(ctx):
             return "raised " + type(e).__name__
 
     def describe(dom, x):
+        if dom == "pkg" and x.version is None:
+            return f"the unversioned {type(x).__module__}.{type(x).__name__}({str(x)!r}) (version None)"
         return f"{x.cpvstr} slot={x.slot}/{x.subslot} use={sorted(x.use)} iuse={sorted(x.iuse_stripped)}" if dom == "pkg" else repr(x)
 
     # ---------------------------------------------------------------- pairs
@@ -1102,12 +1158,12 @@ def run(ctx):
             if not isinstance(mod, list):
                 ctx.mismatch(case, f"driver answered {mod!r} to a match request")
                 continue
-            if any(isinstance(x, str) for x in real):
+            st, i = model_diff(dom, real, mod, rec["m" + who])
+            if st == "raised":
                 ctx.count("match_raised_on_ill_typed_value")      # e.g. a multi restriction whose child cannot unpack what it pulls
                 continue
             ctx.count("match_model_compared")
-            if real != mod:
-                i = [j for j, (x, y) in enumerate(zip(real, mod)) if x != y][0]
+            if st == "diff":
                 ctx.mismatch(case, f"{who}.match on {describe(dom, UNIV[dom][i])} is {real[i]}, model gives {mod[i]}; model {who} = {json.dumps(rec['m' + who])[:300]}")
 
     # ---- instance caches: a restriction built while other restrictions are alive, against the same description built alone
@@ -1227,12 +1283,12 @@ def run(ctx):
         for case, dom, models, vectors in warm_pend:
             for i, (m, wm) in enumerate(zip(models, vectors)):
                 rep = next(reps)
-                if rep == "opaque" or any(isinstance(x, str) for x in wm):
+                st, j = ("raised", None) if rep == "opaque" or not isinstance(rep, list) else model_diff(dom, wm, rep, m)
+                if st == "raised":
                     ctx.count("warm_match_model_opaque")
                     continue
                 ctx.count("warm_match_model_compared")
-                if rep != wm:
-                    j = [q for q, (x, y) in enumerate(zip(wm, rep)) if x != y][0]
+                if st == "diff":
                     ctx.mismatch(dict(case, member=i), f"description #{i} built among alive restrictions matches {wm[j]} on {describe(dom, UNIV[dom][j])}, "
                                                        f"the model of the description built alone gives {rep[j]} (contradicts instance_cache_transparent)")
         warm_pend.clear()
